@@ -24,10 +24,10 @@ RULE = (
     "transition = one real API call; non-trivial = a sequence in which some argument object is passed to at least two calls"
 )
 SPACE = {
-    "quick": "4 scenarios (simple grid, face-connected grid, grid with metrics, transform grid) x all sequences of length 3 over ~14-17 operations each (incl. calls that raise); every prefix checked",
-    "thorough": "all sequences of length 4",
+    "quick": "4 scenarios (simple grid with a second Grid object, face-connected grid, grid with metrics, transform grid) x all sequences a;b;c with a, b over all 10-20 operations of the scenario (incl. calls that raise) and c over every second one; every prefix checked",
+    "thorough": "a;b;c;d with a, b, c over all operations and d over every third one",
 }
-BOUNDS = {"quick": {"depth": 3}, "thorough": {"depth": 4}}
+BOUNDS = {"quick": {"depth": 3}, "thorough": {"depth": 4}}  # see alphabets()
 ASSUMPTIONS = [
     "state hidden from the snapshot (closures, C-level caches) is only caught through clause (ii): results must equal first-call results",
     "set_metrics is a mutator by design; it is included only in forms that must leave the registry unchanged (idempotent overwrite, refused registration)",
@@ -149,6 +149,9 @@ def scn_simple():
     with warnings.catch_warnings():
         warnings.simplefilter("ignore")
         ns["g"] = Grid(ds, coords=ns["coords"], periodic=False, boundary="fill", fill_value=0.0, autoparse_metadata=False)
+    with warnings.catch_warnings():
+        warnings.simplefilter("ignore")
+        ns["g2"] = Grid(ds, coords=ns["coords"], periodic=["X"], boundary={"Y": "extend"}, fill_value=5.0, autoparse_metadata=False)
     c = xr.DataArray(((np.arange(2 * ny * nx) * 7) % 11).astype(float).reshape(2, ny, nx), dims=["t", "yc", "xc"], name="foo",
                      attrs={"long_name": "Foo"})
     ns["c"] = c.assign_coords(xc=ds.xc, yc=ds.yc, depth=ds.depth)
@@ -184,6 +187,9 @@ def scn_simple():
     ops["ufunc"] = lambda n: apply_as_grid_ufunc(_ufunc, n["c"], axis=[("X",)], grid=n["g"], signature="(X:center)->(X:left)",
                                                  boundary_width=n["bw1"], boundary=n["bmap"], fill_value=n["fmap"])
     ops["construct"] = lambda n: _construct(n)
+    # a second Grid object on the same dataset with other settings, used alternately with the first
+    ops["g2_diff_x"] = lambda n: n["g2"].diff(n["c"], "X", to="left")
+    ops["g2_interp_xy"] = lambda n: n["g2"].interp(n["c"], n["axl"], to=n["tomap"], fill_value=n["fmap"])
     ops["diff_keep"] = lambda n: n["g"].diff(n["c"], "X", to="left", keep_coords=True)
     ops["vec_diff"] = lambda n: n["g"].diff(n["vec"], "X", other_component=n["oc"])
     ops["vec2d"] = lambda n: n["g"].interp_2d_vector(n["vec2"], boundary="extend")
@@ -426,13 +432,19 @@ def shards(tier, seed):
     return sh
 
 
+def alphabets(names, tier):
+    """per-position alphabets after the first operation.  quick: all x every second operation;
+    thorough: all x all x every third operation (depth 4)."""
+    if tier == "quick":
+        return [names, names[::2]]
+    return [names, names, names[::3]]
+
+
 def run_shard(shard, tier, seed, rec):
     scn, firstop = shard
     _, ops = SCN[scn]()
     names = list(ops)
-    depth = BOUNDS[tier]["depth"]
-    run_seq(rec, scn, (firstop, firstop)) if depth < 2 else None
-    for rest in itertools.product(names, repeat=depth - 1):
+    for rest in itertools.product(*alphabets(names, tier)):
         run_seq(rec, scn, (firstop,) + rest)
 
 
